@@ -170,7 +170,7 @@ inline bool mutate_tree(std::vector<Node> &roots, Rng &r, size_t hardMax, const 
     size_t total = 0; { Bytes all; ser_list(roots, all); total = all.size(); }
     size_t maxOut = hardMax < total + total / 2 + 1024 ? hardMax : total + total / 2 + 1024;
     unsigned op = (unsigned) r.below(donor ? 16 : 15);
-    if (op == 14 && r.below(3) == 0) {
+    if (op == 14 && r.below(2) == 0) {
         // header cut: the input ends inside (or right after) the tag/length header of the chosen TLV.  Everything behind
         // the TLV is removed at every nesting level and the enclosing lengths are re-encoded to what is really present
         // (or, one time in three, the innermost enclosing TLV keeps the length it claimed), so that a parser which looks
